@@ -1353,7 +1353,7 @@ fn main() {
     }
     let scale: usize = arg_value(&args, "--scale").and_then(|s| s.parse().ok()).unwrap_or(100);
     let threads: usize = arg_value(&args, "--threads").and_then(|s| s.parse().ok()).unwrap_or(16);
-    let wall_cap = ctx.pick(75.0, 520.0);
+    let wall_cap = ctx.pick(75.0, 520.0) * Ctx::wall_scale();
 
     if let (Some(k), Some(i)) = (only_kind, only_history) {
         run_one(&ctx, k, i);
